@@ -17,9 +17,9 @@ ASSUMPTIONS = ["adjust_spec holds for every factor table (finding F15, the end-p
                "theorems over exact rationals; implementation compared bit-for-bit with the Float instance of the same model text"]
 
 
-def gen_scenario(rnd, nonmonotone=False, first_kind=None):
+def gen_scenario(rnd, nonmonotone=False, first_kind=None, week_off=False):
     ndays = rnd.randrange(12, 40)
-    cal = B.calendar(rnd, ndays)
+    cal = B.calendar(rnd, ndays, None, week_off)         # week_off: a closure that covers a whole calendar week
     S = {"cal": cal, "stocks": [], "futures": [], "div": {}, "split": {}, "fac": {}, "sus": {}, "trf": {}, "warm": 0}
     for k in range(rnd.randrange(1, 4)):
         kind = first_kind if (first_kind and k == 0) else rnd.choice(["CS", "CS", "CS", "ETF", "ETF", "LOF"])      # every adjusting type the bundle serves (LOF: listed open-ended funds, funds.h5)
@@ -132,13 +132,20 @@ def one_scenario(ctx, S, nonmonotone, n_calls, corrs):
             d, e = rand_date(), rand_date()
             n = rnd.choice([1, 1, 1, 2, 3, 7, len(cal), len(cal) + 3])
             inside = d in cal
+            # the date may arrive in any of the forms the API accepts — also with a time of day (pd.Timestamp(context.now)): the answer is a function of the DAY
+            form = rnd.choice(["date"] * 5 + ["timestamp_with_time", "datetime_with_time", "str", "timestamp"])
+            import pandas as pd
+            tod = datetime.time(rnd.choice([9, 10, 14]), rnd.choice([31, 0, 59]))
+            darg = {"date": d, "timestamp_with_time": pd.Timestamp(datetime.datetime.combine(d, tod)), "datetime_with_time": datetime.datetime.combine(d, tod),
+                    "str": d.isoformat(), "timestamp": pd.Timestamp(d)}[form]
+            ctx.stats["calendar_argument_form:" + form] += 1
             # --- implementation answers
-            dates = [ts8(x) for x in dp.get_trading_dates(d, e)]
-            prev = ts8(dp.get_previous_trading_date(d, n))
-            nxt = ts8(dp.get_next_trading_date(d, n))
+            dates = [ts8(x) for x in dp.get_trading_dates(darg, e)]
+            prev = ts8(dp.get_previous_trading_date(darg, n))
+            nxt = ts8(dp.get_next_trading_date(darg, n))
             istd = bool(dp.is_trading_date(d))
-            nunt = [ts8(x) for x in dp.get_n_trading_dates_until(d, n)]
-            cnt = int(dp.count_trading_dates(d, e))
+            nunt = [ts8(x) for x in dp.get_n_trading_dates_until(darg, n)]
+            cnt = int(dp.count_trading_dates(darg, e))
             d8, e8 = B.d8(d), B.d8(e)
             reqs.append((c_cal, "%s DATES %d %d" % (calline, d8, e8), " ".join(map(str, dates)), {"op": "get_trading_dates", "start": str(d), "end": str(e)}))
             reqs.append((c_cal, "%s PREV %d %d" % (calline, d8, n), str(prev), {"op": "get_previous_trading_date", "date": str(d), "n": n}))
@@ -226,9 +233,12 @@ def one_scenario(ctx, S, nonmonotone, n_calls, corrs):
             monday8 = int((dt - datetime.timedelta(days=dt.weekday())).strftime("%Y%m%d"))
             sel = [r for r in rows_d if (r[0] // 1000000 <= d8 if inow else r[0] // 1000000 < monday8)][-n * 5:]
             wk = [week_of(r[0] // 1000000) for r in sel]
-            if not sel or any(b - a > 7 for a, b in zip(wk, wk[1:])):
-                ctx.stats["weekly_calls_skipped_empty_week"] += 1
+            if not sel:
                 continue
+            # a week without any bar inside the window: the model does not cover it (label mapping and de-duplication); the specification monitor does
+            empty_week = any(b - a > 7 for a, b in zip(wk, wk[1:]))
+            if empty_week:
+                ctx.stats["weekly_calls_with_an_empty_week_inside"] += 1
             try:
                 arr = dp.history_bars(st["id"], n, "1w", names, dt, skip_suspended=skip, include_now=inow, adjust_type=adj, adjust_orig=dt)
                 vals = [[float(row[nm]) for nm in names] for row in arr]
@@ -236,7 +246,8 @@ def one_scenario(ctx, S, nonmonotone, n_calls, corrs):
                 ctx.stats["weekly_call_raises:" + type(ex).__name__] += 1
                 continue
             line = "HISTW %d 0 %d %d %s %d %d %d %s %s" % (st["type"] == "CS", skip, inow, adj, n, d8, d8, bars_line(S, st), facs_line(S, st))
-            week_log.append((line, vals, {"op": "DataProxy.history_bars 1w", "id": st["id"], "n": n, "dt": str(dt), "skip_suspended": skip, "include_now": inow, "adjust": adj}))
+            if True:     # (since the repair of F44 a week without bars yields no weekly bar: the model's grouping of the daily window covers these windows too)
+                week_log.append((line, vals, {"op": "DataProxy.history_bars 1w", "id": st["id"], "n": n, "dt": str(dt), "skip_suspended": skip, "include_now": inow, "adjust": adj}))
             # monitor (specification, independent of the model): each weekly bar aggregates the adjusted daily bars of its week
             fac = S["fac"].get(st["id"])
             groups = []
@@ -259,7 +270,8 @@ def one_scenario(ctx, S, nonmonotone, n_calls, corrs):
                         # (with a factor table that returns to an earlier value the daily window can come back unadjusted: finding F15, same signature as for '1d')
                         ctx.witness("C20.2", {"kind": "adjust", "nonmonotone_factors": True, "weekly": True} if nonmonotone else {"kind": "weekly_bar", "adjust": adj},
                                     "DataProxy.history_bars(%s, %d, '1w', end=%s, include_now=%s, adjust=%s): week of %s returned %r, aggregation of the adjusted daily bars %r"
-                                    % (st["id"], n, d8, inow, adj, g[0][0] // 1000000, v, want), {"id": st["id"], "n": n, "dt": str(dt), "include_now": inow, "adjust": adj})
+                                    % (st["id"], n, d8, inow, adj, g[0][0] // 1000000, v, want), {"id": st["id"], "n": n, "dt": str(dt), "include_now": inow, "adjust": adj, "skip_suspended": skip,
+                                       "window_days": [(r[0] // 1000000, r[5]) for r in sel], "returned": vals, "calendar": cal8})
                         break
             else:
                 ctx.witness("C20.1", {"kind": "weekly_window_length"}, "DataProxy.history_bars(%s, %d, '1w', end=%s, include_now=%s): %d weekly bars, the daily window holds %d weeks"
@@ -388,7 +400,7 @@ def run(ctx):
     n_scen = ctx.n(10, 300)
     for k in range(n_scen):
         nonmono = (k % 5 == 4)
-        S = gen_scenario(random.Random(ctx.rnd.random()), nonmonotone=nonmono, first_kind=["CS", "ETF", "LOF"][k % 3])
+        S = gen_scenario(random.Random(ctx.rnd.random()), nonmonotone=nonmono, first_kind=["CS", "ETF", "LOF"][k % 3], week_off=(k % 2 == 1))
         one_scenario(ctx, S, nonmono, ctx.n(40, 60) if ctx.tier == "quick" else 60, corrs)
 
 
